@@ -61,6 +61,9 @@ pub struct Sim {
     /// task -> (job, n): parked until that job has made its n-th effective write
     held_until_write: HashMap<usize, (String, u32)>,
     pub writes_by_job: BTreeMap<String, u32>,
+    /// what the scheduler was told about each job (for the structural ordering check)
+    pub job_info: BTreeMap<String, crate::order::JobInfo>,
+    handling: Option<String>,
     /// jobs that replaced a value another job had written, with how many writes they made in all
     pub rewriters: BTreeSet<String>,
     rushed: Option<usize>,
@@ -89,10 +92,10 @@ pub struct Sim {
     by_ty: HashMap<&'static str, BTreeMap<String, String>>,
     writes_by: HashMap<(String, String), u32>,
     /// item -> accesses (job, is_write)
-    accesses: HashMap<String, Vec<(String, bool)>>,
+    pub accesses: HashMap<String, Vec<(String, bool)>>,
     /// ty -> jobs that wrote some item of ty / scanned ty
-    ty_writers: HashMap<&'static str, Vec<String>>,
-    ty_scanners: HashMap<&'static str, Vec<String>>,
+    pub ty_writers: HashMap<&'static str, Vec<String>>,
+    pub ty_scanners: HashMap<&'static str, Vec<String>>,
     pub reads: BTreeMap<String, BTreeMap<String, BTreeSet<String>>>,
     pub scans: BTreeMap<String, BTreeMap<String, BTreeSet<u64>>>,
     pub scan_tab: BTreeMap<u64, Vec<(String, String)>>,
@@ -664,7 +667,27 @@ fn h_event(what: &'static str, id: &dyn Debug, detail: Option<&dyn Debug>) {
         }
         let has = |r: &str| roles.iter().any(|x| x == r);
         match what {
+            "added" => {
+                let also = detail.map(|d| crate::order::parse_id_list(&format!("{d:?}"))).unwrap_or_default();
+                let handling = sim.handling.clone();
+                let info = sim.job_info.entry(idt.clone()).or_default();
+                info.also = also;
+                if let Some(h) = handling {
+                    info.after.push(h);
+                }
+                false
+            }
+            "deps-set" => {
+                let handling = sim.handling.clone();
+                if let Some(h) = handling {
+                    sim.job_info.entry(idt.clone()).or_default().after.push(h);
+                }
+                false
+            }
             "launch" => {
+                sim.handling = None;
+                let text = detail.map(|d| format!("{d:?}")).unwrap_or_default();
+                sim.job_info.entry(idt.clone()).or_default().access = text;
                 let window = !sim.ended_unhandled.is_empty();
                 if window {
                     sim.probe("launch-while-completion-unhandled");
@@ -732,6 +755,7 @@ fn h_event(what: &'static str, id: &dyn Debug, detail: Option<&dyn Debug>) {
                 true
             }
             "handle-success" => {
+                sim.handling = Some(idt.clone());
                 sim.ended_unhandled.remove(&idt);
                 sim.coord_state ^= fnv(idt.as_bytes());
                 let cs = sim.coord_state;
